@@ -29,6 +29,8 @@ def run(ctx):
         a, b = rnd_us(), rnd_us()
         if i % 7 == 0:
             b = rng.choice((1, -1, 2, -2, 3)) * max(1, abs(a) // rng.choice((1, 2, 4, 8)))  # exercise ties / exact quotients
+            while abs(b) > 86399999999999 * 10 ** 6:   # keep the operand itself inside timedelta's range
+                b //= 4
         d, o_d, t_a, t_b = Duration(microseconds=a), Duration(microseconds=b), timedelta(microseconds=a), timedelta(microseconds=b)
         k = rng.choice((1, -1, 2, -2, 3, 7, -10, 1000, rng.randrange(-10 ** 6, 10 ** 6) or 5))
         f = rng.choice((0.5, -0.5, 1.5, 2.5, 0.1, -3.3, 1e-3, rng.uniform(-100, 100) or 1.0))
